@@ -18,7 +18,11 @@ func (P) Rule() string {
 		"xfer, xfertok, ain (A->U), uu (U->U), ua (U->A) with correct, stale and future nonces, replays, spends of spent outputs, tampered confidential txs " +
 		"(outpk, pseudo-out, fee, range proof, key image, ring signature) and lies about the spent amount (claim); after every block the balances of every account, " +
 		"the foundation, the zero address, the pool as its owners see it and the total supply are printed and compared with the ledger model; " +
-		"monitors: total native and token supply constant, tampered txs never admitted, fees debited = fees credited; " +
+		"a second stream forces blocks a Byzantine proposer can assemble that carry VALUE-UNDERFUNDED account transfers (xfer / xfertok whose gas is funded but whose value is not): alone, mixed with valid " +
+		"transactions in both orders, followed in the same block by the sender's next nonce, twice the same, then replayed through the mempool and forced again, also after a restart, and GAS-underfunded ones " +
+		"(block invalid): the real Process commits the former with a FAILED receipt (status 0, gas 0, nonce bumped, nothing moves) — balances, foundation, supply, nonces and the receipts are compared with the " +
+		"receipt-accurate ledger model (Model.LedgerR); " +
+		"monitors: total native and token supply constant, tampered txs never admitted, fees debited = fees credited, a failed receipt charges nothing; " +
 		"non-trivial = at least two blocks with a transaction and at least one confidential transaction committed; distinct = distinct op sequence"
 }
 
@@ -32,6 +36,7 @@ func (P) Monitor(c *hx.CaseRun) []hx.Failure {
 	var fs []hx.Failure
 	supply, toks := "", ""
 	claim := false
+	allFailed, prevBal := false, ""
 	for i, op := range c.Ops {
 		ans := c.Impl[i]
 		toks_ := hx.Tokens(op)
@@ -50,10 +55,35 @@ func (P) Monitor(c *hx.CaseRun) []hx.Failure {
 			fs = append(fs, hx.Failure{Monitor: "amount_range_enforced", Class: "oversize-amount-accepted", Site: "types/tx_utxo.go:BigInt2Hash",
 				Msg: "an account-side amount of 2^64 units or more was turned into a commitment scalar (it is reduced modulo the scalar's byte width while the full amount is credited): " + op + " -> " + ans})
 		}
-		if strings.HasPrefix(ans, "panic") || strings.Contains(ans, "=panic") {
+		// (a forced block that does not execute is refused with propose=panic: that is the expected fate of an invalid Byzantine block)
+		if strings.HasPrefix(ans, "panic") || (strings.Contains(ans, "=panic") && toks_[0] != "forceblock") {
 			fs = append(fs, hx.Failure{Monitor: "no_panic", Class: "panic:" + ans, Site: "app", Msg: op + " -> " + ans})
 		}
+		if toks_[0] == "receipts" {
+			// the op line carries what the implementation recorded; a block all of whose receipts failed must move nothing
+			if v, ok := hx.Arg(toks_, "st"); ok && v != "" {
+				allFailed = true
+				for _, st := range hx.SplitComma(v) {
+					if st != "0" {
+						allFailed = false
+					}
+				}
+				// (a reverted contract call also has status 0 but pays the gas it burnt: only gas-0 failures move nothing)
+				gv, _ := hx.Arg(toks_, "gas")
+				for _, gs := range hx.SplitComma(gv) {
+					if gs != "0" {
+						allFailed = false
+					}
+				}
+			}
+		}
 		if toks_[0] == "bal" {
+			if allFailed && prevBal != "" && ans != prevBal {
+				fs = append(fs, hx.Failure{Monitor: "failed_receipt_charges_nothing", Class: "failed-receipt-moved-value", Site: "app/state_transition.go:refundGas",
+					Msg: "a block whose receipts all failed changed balances: " + prevBal + " -> " + ans})
+			}
+			allFailed = false
+			prevBal = ans
 			a := hx.Tokens(ans)
 			s, _ := hx.Arg(a, "supply")
 			t, _ := hx.Arg(a, "toksupply")
@@ -96,8 +126,143 @@ var Inflation = []string{
 	"bal",
 }
 
+// Underfunded is the witness of the failed-receipt rule: a forced block with a transfer whose value is not funded (fee
+// funded), a token transfer whose token value is not funded, and a funded transfer: the block commits, two receipts fail,
+// all three nonces advance, only the third transaction moves value and pays a fee; the failed ones are dead afterwards.
+var Underfunded = []string{
+	"case tags=underfunded",
+	"chain trie=1 accts=3 wallets=2 seed=7 bal=100000000 tbal=1000",
+	"bal",
+	"xfer from=0 to=1 amount=2000000000 nonce=0",
+	"xfertok from=1 to=2 amount=5000 nonce=0",
+	"xfer from=2 to=1 amount=7 nonce=0",
+	"forceblock ids=0,1,2",
+	"bal",
+	"nonces",
+	"forceblock ids=0",
+	"replay id=0",
+	"block",
+	"forceblock ids=1,1",
+	"bal",
+	"nonces",
+}
+
+// UnderfundedCase builds a chain with small balances (10^8 units, 1000 token units) in which forced blocks carry
+// value-underfunded account transfers in every arrangement the property lists.  Ids are exact: every xfer / xfertok op
+// registers a transaction, admitted or not.
+func UnderfundedCase(g *hx.Gen) []string {
+	r := g.Rng
+	ops := []string{hx.CaseOp("underfunded"), fmt.Sprintf("chain trie=%d accts=4 wallets=2 seed=%d bal=100000000 tbal=1000", r.Intn(2), 1+r.Intn(1000)), "bal"}
+	nonce := []int{0, 0, 0, 0}
+	drained := false // account 3 receives nothing and is used once: swept down to 1 unit, then it cannot even pay gas
+	id := 0
+	add := func(f string, a ...interface{}) { ops = append(ops, fmt.Sprintf(f, a...)) }
+	under := func(from int, n int) int { // value not funded, gas funded (balance stays >= 5*10^6 units in this stream)
+		if r.Intn(3) == 0 {
+			add("xfertok from=%d to=%d amount=%d nonce=%d", from, r.Intn(3), 1001+r.Intn(100000), n)
+		} else {
+			add("xfer from=%d to=%d amount=%d nonce=%d", from, r.Intn(3), 100000000+r.Intn(2000000000), n)
+		}
+		id++
+		return id - 1
+	}
+	valid := func(from int, n int) int {
+		add("xfer from=%d to=%d amount=%d nonce=%d", from, r.Intn(3), 1+r.Intn(1000), n)
+		id++
+		return id - 1
+	}
+	var dead []int
+	rounds := 2 + r.Intn(g.Pick(3, 5))
+	for k := 0; k < rounds; k++ {
+		a := r.Intn(3)
+		switch v := r.Intn(7); v {
+		case 0: // alone
+			g.Count("underfunded:alone")
+			u := under(a, nonce[a])
+			add("forceblock ids=%d", u)
+			nonce[a]++
+			dead = append(dead, u)
+		case 1: // mixed with a valid transaction of another sender, both orders
+			g.Count("underfunded:mixed")
+			c := (a + 1 + r.Intn(2)) % 3
+			u := under(a, nonce[a])
+			w := valid(c, nonce[c])
+			if r.Intn(2) == 0 {
+				add("forceblock ids=%d,%d", u, w)
+			} else {
+				add("forceblock ids=%d,%d", w, u)
+			}
+			nonce[a]++
+			nonce[c]++
+			dead = append(dead, u)
+		case 2: // the sender's next nonce in the same block: it runs because the failed receipt consumed the nonce
+			g.Count("underfunded:then-next-nonce")
+			u := under(a, nonce[a])
+			w := valid(a, nonce[a]+1)
+			if r.Intn(3) == 0 {
+				add("forceblock ids=%d,%d", w, u) // wrong order: invalid
+			}
+			add("forceblock ids=%d,%d", u, w)
+			nonce[a] += 2
+			dead = append(dead, u)
+		case 3: // twice the same in one block (invalid), then once
+			g.Count("underfunded:twice")
+			u := under(a, nonce[a])
+			add("forceblock ids=%d,%d", u, u)
+			add("forceblock ids=%d", u)
+			nonce[a]++
+			dead = append(dead, u)
+		case 4: // two different underfunded transactions of one sender with the same nonce: only one can be consumed
+			g.Count("underfunded:same-nonce-pair")
+			u1 := under(a, nonce[a])
+			u2 := under(a, nonce[a])
+			add("forceblock ids=%d,%d", u1, u2)
+			add("forceblock ids=%d", u2)
+			add("forceblock ids=%d", u1)
+			nonce[a]++
+			dead = append(dead, u1, u2)
+		case 5: // gas not funded: sweep account 3 down to 1 unit, then force a transfer of it: the block is INVALID (buyGas), no failed receipt
+			if drained {
+				continue
+			}
+			drained = true
+			g.Count("underfunded:gas")
+			add("xfer from=3 to=%d amount=94999999 nonce=0", r.Intn(3)) // cost 94999999 + fee 5000000 = 99999999
+			id++
+			add("block")
+			nonce[3] = 1
+			u := under(3, 1)
+			add("forceblock ids=%d", u)
+			w := valid(3, 1)
+			add("forceblock ids=%d", w)
+			_ = u
+		default: // replay the dead ones through the mempool and force them again, possibly after a restart
+			if len(dead) > 0 {
+				g.Count("underfunded:replay-dead")
+				if r.Intn(3) == 0 {
+					add("restart")
+				}
+				d := dead[r.Intn(len(dead))]
+				add("replay id=%d", d)
+				add("block")
+				add("forceblock ids=%d", d)
+				if len(dead) > 1 {
+					add("forceblock ids=%d,%d", dead[r.Intn(len(dead))], d)
+				}
+			}
+		}
+		add("bal")
+		add("nonces")
+	}
+	return ops
+}
+
 func (P) Generate(g *hx.Gen) {
 	g.Case("corpus: short-ring inflation", WithReceipts(Inflation), true)
+	g.Case("corpus: forced block with value-underfunded transfers (failed receipts)", WithReceipts(Underfunded), true)
+	for k, nu := 0, g.Pick(40, 400); k < nu; k++ {
+		g.Case("underfunded forced blocks", WithReceipts(UnderfundedCase(g)), true)
+	}
 	n := g.Pick(200, 1200)
 	for k := 0; k < n; k++ {
 		trie := g.Rng.Intn(2)
